@@ -222,6 +222,7 @@ class Program:
                 if isinstance(st, (ast.FunctionDef, ast.AsyncFunctionDef)):
                     local = f"{prefix}{st.name}"
                     fi = FuncInfo(f"{mi.name}.{local}", mi, st, cls, par)  # type: ignore[arg-type]
+                    st._fi = fi  # type: ignore[attr-defined]
                     # keep the first definition unless it is an @overload stub
                     decos = [ast.unparse(d) for d in st.decorator_list]
                     if local in mi.functions and any("overload" in d for d in decos):
@@ -407,10 +408,20 @@ def enclosing_stmt(node: ast.AST) -> ast.stmt | None:
 
 
 def norm(node: ast.AST | str) -> str:
-    """Normalised text of a construct (used for keys, never for matching rules)."""
+    """Normalised text of a construct. For a node inside a function the result
+    is a `pattern.S`: a str that also equals / contains a probe whose only
+    difference is the name of a temporary that no longer exists in the
+    function (see sa/pattern.py) -- rules compare constructs, not spellings."""
     if isinstance(node, str):
         return " ".join(node.split())
-    return " ".join(ast.unparse(node).split())
+    text = " ".join(ast.unparse(node).split())
+    f = node
+    while f is not None and not hasattr(f, "_fi"):
+        f = getattr(f, "_parent", None)
+    if f is None:
+        return text
+    from .pattern import S, scope_of
+    return S(text, scope_of(f._fi), node)
 
 
 def own_nodes(fn: ast.AST):
